@@ -226,6 +226,38 @@ SPELL_MOD = 4  # one generated rule document in four is written in another YAML 
 NOEOL_MOD = 8  # one listing in eight is written without the final newline / with blank lines after the last instruction
 
 
+def _share_equal_items(doc):
+    """A copy of the document in which mapping items of the pattern that are equal (and carry more than a bare name) are the same
+    object, or None if there are none."""
+    import copy
+
+    doc = copy.deepcopy(doc)
+    seen = []
+    found = [False]
+
+    def walk(node):
+        if isinstance(node, list):
+            for k, x in enumerate(node):
+                if isinstance(x, dict) and x:
+                    for y in seen:
+                        if y == x:
+                            node[k] = y
+                            found[0] = True
+                            break
+                    else:
+                        seen.append(x)
+                        walk(x)
+                else:
+                    walk(x)
+        elif isinstance(node, dict):
+            for v in node.values():
+                walk(v)
+
+    if isinstance(doc, dict):
+        walk(doc.get("pattern"))
+    return doc if found[0] else None
+
+
 def spelled_rule_text(doc):
     """The rule file of a generated document: block style as a rule; for one document in four (chosen by its content) flow style,
     mixed style, an explicit document start with a comment in front, or a deep indentation.  Raw text is written as it is."""
@@ -233,6 +265,17 @@ def spelled_rule_text(doc):
         return doc
     text = dump_yaml(doc)
     sel = zlib.crc32(text.encode("utf-8", "replace"))
+    if SPELL_MOD and sel % 2 == 1:
+        # an item that is written twice may be written once with a YAML anchor and used again through an alias (`- &id001 {...}` ...
+        # `- *id001`): the loader then hands out the same object twice
+        shared = _share_equal_items(doc)
+        if shared is not None:
+            alt = yaml.dump(shared, Dumper=yaml.SafeDumper, sort_keys=False, allow_unicode=True, default_flow_style=False)
+            try:
+                if "*id0" in alt and yaml.safe_load(alt) == doc:
+                    return alt
+            except yaml.YAMLError:
+                pass
     if not SPELL_MOD or sel % SPELL_MOD != 2:
         return text
     kw = [dict(default_flow_style=True), dict(default_flow_style=None), dict(default_flow_style=False, explicit_start=True), dict(default_flow_style=False, indent=6, width=30),
